@@ -141,6 +141,8 @@ structure Resp where
   failAfter  : Option Nat        -- `some k`: the body delivers `k` bytes, then `Read` returns an error
   readErr    : Bytes             -- text of that error
   endWithData : Bool             -- the final `Read` returns its bytes together with EOF / the error
+  declared   : Int := -1         -- `r.ContentLength` as the transport reports it (-1 unknown; for the answer to a
+                                 -- HEAD request the entity's length although no body is delivered). `hit` never reads it.
   deriving Repr, DecidableEq
 
 /-- A redirect response (3xx with a Location) answered before the final one. -/
@@ -318,5 +320,39 @@ def hit (t : Target) (u : UrlInfo) (cfg : Cfg) (seq : Nat) (ex : Exchange) : Out
 /-- `hit` when the targeter fails: the attack is stopped, the result carries only the error. -/
 def hitNoTarget (cfg : Cfg) (seq : Nat) (errText : Bytes) : Out :=
   { res := { (Result.zero cfg.name seq) with error := errText }, req := none, obtained := false, bodyLog := [], stopped := true }
+
+/-! ### several hits of one attack, and the command's glue -/
+
+/-- one call of `hit`: the targeter fails, or it yields a target and the world answers -/
+inductive Call where
+  | noTarget (err : Bytes)
+  | target (t : Target) (u : UrlInfo) (ex : Exchange)
+  deriving Repr, DecidableEq
+
+def callOut (cfg : Cfg) (seq : Nat) : Call → Out
+  | .noTarget e => hitNoTarget cfg seq e
+  | .target t u ex => hit t u cfg seq ex
+
+/-- Successive calls of `hit` on one attacker and one attack: the only state carried from call to
+call is `atk.seq` (`res.Seq = atk.seq; atk.seq++` under the mutex, a `uint64`). -/
+def hitMany (cfg : Cfg) : Nat → List Call → List Out
+  | _, [] => []
+  | seq, c :: cs => callOut cfg seq c :: hitMany cfg ((seq + 1) % two64) cs
+
+/-- The flags of `vegeta attack` that reach `hit` (attack.go): `-max-body` (default
+`vegeta.DefaultMaxBody` = -1), `-redirects` (default `vegeta.DefaultRedirects` = 10),
+`-chunked`, `-name`. -/
+structure AttackFlags where
+  maxBody   : Int := -1
+  redirects : Int := 10
+  chunked   : Bool := false
+  name      : Bytes := []
+  deriving Repr, DecidableEq
+
+/-- `vegeta.NewAttacker(vegeta.Redirects(opts.redirects), …, vegeta.MaxBody(opts.maxBody), …,
+vegeta.ChunkedBody(opts.chunked), …)` and `atk.Attack(tr, opts.rate, opts.duration, opts.name)`:
+the `Redirects` option is ALWAYS applied by the command, also with the default value. -/
+def cmdCfg (f : AttackFlags) : Cfg :=
+  { maxBody := f.maxBody, chunked := f.chunked, redirects := some f.redirects, name := f.name }
 
 end Vegeta.Model.Hit
